@@ -15,7 +15,7 @@ cd /verif
 if ! git -C /repo apply --check /tmp/wt/$name.patch; then echo "patch does not apply to /repo"; exit 2; fi
 git -C /repo apply /tmp/wt/$name.patch
 for c in "$@"; do echo "== ./check $c"; timeout 1500 ./check $c > /tmp/wt/$name.$c.log 2>&1; echo "exit=$?"; grep -E "VIOLATION|^# |HARNESS|Traceback" /tmp/wt/$name.$c.log | cut -c1-300 | head -6; done
-git -C /repo checkout -- .
+git -C /repo checkout -- .; git -C /verif checkout -- evidence 2>/dev/null
 mkdir -p /verif/seeded/$name
 cp /tmp/wt/$name.patch /verif/seeded/$name/patch.diff
 cp $out/demo.py /verif/seeded/$name/demo.py
